@@ -8,7 +8,8 @@
    replaced by the full-strength ones below; the statements about the old code are in history/ and the
    old behaviour survives only as `Example`s about `write_rtp_old` / `write_rtcp_old`. *)
 From Coq Require Import ZArith NArith.
-From GV_maxsize Require Import Model Proofs.
+From GVG Require Import Kern.
+From GV_maxsize Require Import Model Proofs Bridge.
 Open Scope Z_scope.
 
 (* whatever the configured maximum, plain or SRTP, with or without an MKI of any length, any packet
@@ -111,3 +112,48 @@ Example C18_regression_tiny_max :
   (forall mki size, write_rtp_old 8 true mki size = WPanic) /\
   (forall size, write_rtp 8 true 0 size = WErr) /\ (forall size, write_rtp (-1) false 0 size = WErr).
 Proof. exact old_tiny_max_panic. Qed.
+
+(* ---- BRIDGE (tools/go2coq) ----
+   The size arithmetic TRANSLATED from the Go source on this run is the arithmetic of the model, for every entry
+   point: write_rtp / write_rtcp ARE the write paths written with the translated budget statement
+   (maxPlainPacketSize -= overhead + len(mki); the overhead constants come from GVG.Consts) and the translated tests
+   (maxPlainPacketSize < 0, len(plain) > maxPlainPacketSize) of clientFormat / serverStreamFormat /
+   serverSessionFormat and of clientMedia / serverStreamMedia / serverSessionMedia / serverMulticastWriterMedia;
+   start_ok IS Start's validation written with the four translated conditions of Server.Start and of Client.Start;
+   tcp_frame IS the interleaved write with the translated tcpBuffer size (MaxPacketSize+4, three allocation sites),
+   the translated 16-bit length bytes of InterleavedFrame.MarshalTo and the translated MarshalSize header.
+   [small] = |x| < 2^61 (no int overflow in the budget). *)
+Theorem C18_maxsize_kernels_are_the_code :
+  (forall max secure mki size, small max -> small mki ->
+     write_rtp max secure mki size = write_rtp_k k_ms_cf_rtp_budget k_ms_cf_rtp_small max secure mki size /\
+     write_rtp max secure mki size = write_rtp_k k_ms_stf_rtp_budget k_ms_stf_rtp_small max secure mki size /\
+     write_rtp max secure mki size = write_rtp_k k_ms_ssf_rtp_budget k_ms_ssf_rtp_small max secure mki size) /\
+  (forall max secure mki size, small max -> small mki ->
+     write_rtcp max secure mki size = write_rtcp_k k_ms_cm_rtcp_budget k_ms_cm_rtcp_big max secure mki size /\
+     write_rtcp max secure mki size = write_rtcp_k k_ms_stm_rtcp_budget k_ms_stm_rtcp_big max secure mki size /\
+     write_rtcp max secure mki size = write_rtcp_k k_ms_ssm_rtcp_budget k_ms_ssm_rtcp_big max secure mki size /\
+     write_rtcp max secure mki size = write_rtcp_k k_ms_smm_rtcp_budget k_ms_smm_rtcp_big max secure mki size) /\
+  (forall max wq, (wq < 9223372036854775808)%N ->
+     start_ok max wq = start_ok_k k_ms_srv_wq_default k_ms_srv_wq_notpow2 k_ms_srv_max_default k_ms_srv_max_too_big max wq /\
+     start_ok max wq = start_ok_k k_ms_cli_wq_default k_ms_cli_wq_notpow2 k_ms_cli_max_default k_ms_cli_max_too_big max wq) /\
+  (forall max wire, small max -> 0 <= wire < 9223372036854775808 ->
+     k_ms_srv_tcpbuf_play max = k_ms_cli_tcpbuf max /\ k_ms_srv_tcpbuf_rec max = k_ms_cli_tcpbuf max /\
+     tcp_frame max wire =
+       let buflen := k_ms_cli_tcpbuf max in
+       if buflen <? k_rtsp_frame_size 0 then None else
+       Some (k_rtsp_frame_len_hi wire * 256 + k_rtsp_frame_len_lo wire,
+             k_rtsp_frame_size 0 + Z.min wire (buflen - k_rtsp_frame_size 0))).
+Proof. exact maxsize_kernels_are_the_code. Qed.
+Print Assumptions C18_maxsize_kernels_are_the_code.
+
+(* the translated kernels compute: SRTP budget 1472 - (10 + 4) = 1458, SRTCP budget 1472 - (14 + 4) = 1454; a 1455-byte
+   compound report is too big for it, 1454 bytes are not; 1473 is refused by Start, 1472 is not; 24 is not a power of
+   two; tcpBuffer of 1472 is 1476 bytes *)
+Example C18_example_kernels :
+  k_ms_cf_rtp_budget 1472 srtp_overhead 4 = 1458 /\ k_ms_smm_rtcp_budget 1472 srtcp_overhead 4 = 1454 /\
+  k_ms_cf_rtp_small (k_ms_cf_rtp_budget 9 srtp_overhead 0) = true /\ k_ms_cf_rtp_small (k_ms_cf_rtp_budget 10 srtp_overhead 0) = false /\
+  k_ms_ssm_rtcp_big 1455 1454 = true /\ k_ms_ssm_rtcp_big 1454 1454 = false /\
+  k_ms_srv_max_too_big 1473 udp_max = true /\ k_ms_cli_max_too_big 1472 udp_max = false /\
+  k_ms_srv_wq_notpow2 24 = true /\ k_ms_cli_wq_notpow2 256 = false /\ k_ms_cli_wq_default 0 = true /\
+  k_ms_cli_tcpbuf 1472 = 1476.
+Proof. vm_compute. repeat split. Qed.
